@@ -44,12 +44,14 @@ theorem mkQuad_subset {t0 t1 : Tri} {q : List V3} (h : mkQuad t0 t1 = .ok q) :
   · cases h
   · split at h
     · cases h
-    · cases h
-      intro p hp
-      rcases List.mem_append.mp hp with hp | hp
-      · simp only [uniquePoints, List.mem_filter, List.mem_append] at hp
-        exact hp.1
-      · exact Or.inl (commonPoints_spec hp).1
+    · split at h
+      · cases h
+      · cases h
+        intro p hp
+        rcases List.mem_append.mp hp with hp | hp
+        · simp only [uniquePoints, List.mem_filter, List.mem_append] at hp
+          exact hp.1
+        · exact Or.inl (commonPoints_spec hp).1
 
 theorem pick2_mem {d : V3} {l : List Tri} {b a : Tri} {rest : List Tri} (h : pick2 d l = some (b, a, rest)) :
     a ∈ l ∧ b ∈ l ∧ ∀ t ∈ rest, t ∈ l := by
